@@ -52,9 +52,60 @@ RangeOK(e) ==
     LET r == RangeAccess(e.sk, e.a, e.ek, e.b)
     IN e.k = r.k /\ (r.k = "ok" => (e.off = r.off /\ e.len = r.len)) /\ e.mut_same = 1
 
+-----------------------------------------------------------------------------
+(* C13 *)
+GateAt(ws, v) == Decode(ws[2 * v + 1], ws[2 * v + 2])
+SghOK(e) ==
+    LET lo == e.lo
+        hiX == CASE e.form = "excl" -> e.hi [] e.form = "all" -> 256 [] OTHER -> e.hi + 1
+        lo2 == IF e.form = "all" THEN 0 ELSE lo
+        T == GeneralTargets(lo2, hiX)
+        G == [v \in T |-> GateAt(e.after, v)]                       \* decoded once per target vector
+    IN /\ e.k = "ok"
+       /\ \A v \in 0 .. 255 :
+            IF v \in T
+            THEN LET g == G[v] IN                                    \* made present, architectural defaults
+                 /\ g.present = 1 /\ g.cs = e.cs /\ g.type = InterruptGate /\ g.dpl = 0 /\ g.ist = 0
+                 /\ ReservedZero(e.after[2 * v + 1], e.after[2 * v + 2])
+                 /\ Canonical(g.addr) /\ g.addr # ZeroW
+            ELSE /\ e.after[2 * v + 1] = e.before[2 * v + 1]          \* everything else untouched
+                 /\ e.after[2 * v + 2] = e.before[2 * v + 2]
+       /\ Cardinality({ G[v].addr : v \in T }) = Cardinality(T)     \* one stub per vector
+
+(* records: type 1 = general handler called <<1, idx, hasErr, err, ip, cs, flags, sp, ss, nCalls>>,
+            type 2 = execution resumed <<2, rsp, rflags, nCalls, resumeIp, ...>> *)
+DeliverOK(e) ==
+    LET v == e.v
+        g == Decode(e.lo, e.hi)
+        hasErr == IF v \in ErrorCodeVectors THEN 1 ELSE 0
+        n == Len(e.cases)
+        call(i) == e.recs[IF v \in Diverging THEN i ELSE 2 * i - 1]
+        ret(i) == e.recs[2 * i]
+    IN IF v \in Reserved THEN e.k = "absent" /\ g.present = 0
+       ELSE /\ e.k = "present" /\ g.present = 1 /\ g.addr = e.target
+            /\ e.status = 0
+            /\ Len(e.recs) = (IF v \in Diverging THEN n ELSE 2 * n)
+            /\ \A i \in 1 .. n :
+                 LET c == e.cases[i]  r1 == call(i) IN
+                 /\ r1[1] = W(1) /\ r1[2] = W(v)                          \* called with index v
+                 /\ r1[3] = W(hasErr)                                     \* error code exactly when the vector defines one
+                 /\ (hasErr = 1 => r1[4] = c[1])                          \* ... and it is the pushed value
+                 /\ r1[6] = W(e.cs) /\ r1[7] = c[2] /\ r1[8] = c[3] /\ r1[9] = W(e.ss)   \* pushed frame contents
+                 /\ r1[10] = W(1)                                         \* exactly once
+                 /\ (v \notin Diverging =>
+                       LET r2 == ret(i) IN
+                       /\ r2[1] = W(2)
+                       /\ r2[2] = c[3]                                    \* resumes at the interrupted stack pointer
+                       /\ r2[3] = c[2]                                    \* with the pushed flags
+                       /\ r2[4] = W(1)
+                       /\ r1[5] = r2[5])                                  \* frame.rip = the instruction it resumed at
+
 Pure(e) ==
     CASE e.op = "idt_dump" -> AllMissing(e.gates) /\ e.size = 4096 /\ e.align = 16
       [] e.op = "idt_clone" -> e.gates = e.orig
+      [] e.op = "sgh" -> SghOK(e)
+      [] e.op = "deliver" -> DeliverOK(e)
+      [] e.op = "iretq" -> e.k = "landed" /\ e.rsp = e.sp /\ e.rflags = e.flags /\ e.status = 0 /\ e.nrecs = 1
       [] e.op = "idt_index" -> IndexOK(e)
       [] e.op = "idt_range" -> RangeOK(e)
       [] e.op = "idt_load" -> /\ e.k = "ok" /\ Len(e.instrs) = 1 /\ e.instrs[1].m = "lidt"
